@@ -241,14 +241,6 @@ where
     (total, fails.into_iter().next())
 }
 
-pub fn hex(data: &[u8]) -> String {
-    let mut s = String::with_capacity(data.len() * 2);
-    for b in data {
-        s.push_str(&format!("{:02x}", b));
-    }
-    s
-}
-
 pub fn unhex(s: &str) -> Vec<u8> {
     (0..s.len() / 2)
         .map(|i| u8::from_str_radix(&s[2 * i..2 * i + 2], 16).unwrap_or(0))
